@@ -51,7 +51,7 @@ THEOREMS = [("Kopf.Props.C19", "Kopf.C19." + n) for n in [
     "no_skip_inv", "no_skip", "deliver_in_order", "resume_point", "relist_on_410",
     "relist_covers_everything", "respond_never_fails", "unknown_error_raises", "failed_is_final",
     "paused_silent", "pause_noticed_is_quiet", "fresh_list_on_resume", "outs_is_ghost", "adjust_keys", "watchers_nodup", "kept_tasks_kept",
-    "exactly_one_watch_partial", "exactly_one_watch_lingering_witness",
+    "served_pairs_have_live_watcher", "exactly_one_watch_partial", "exactly_one_watch_lingering_witness",
     "revise_wakes", "pass_progress", "no_lost_wakeup", "exactly_one_watch_async_partial",
     "unlocked_pass_loses_wakeup_witness"]]
 TIE_THEOREMS = [("Kopf.Tie.C19", "Kopf.C19.Tie.pass_under_lock")]
@@ -111,6 +111,7 @@ F1_SIG = {"site": "watching.continuous_watch", "shape": "HTTP 410 on the watch r
 F2_SIG = {"site": "api.request", "shape": "retry attempts of a list/watch request begun before the pause are re-sent while paused"}
 F3_SIG = {"site": "orchestration.terminate_redundancies", "shape": "cluster-scoped watcher survives the removal of the last served namespace"}
 
+# C19-F4 was repaired in kopf 9ef1bcb; the signature stays so that a regression is reported as a VIOLATION
 F4_SIG = {"site": "orchestration.spawn_missing_watchers",
           "shape": "dead watcher task (ended with an exception) keeps its key: the served pair is never watched again"}
 
@@ -550,6 +551,12 @@ def gen_history(rng: random.Random, seed: int) -> dict:
         rng.shuffle(watched)
         steps.append({"watched": list(watched), "indexed": [r["name"] for r in watched if rng.random() < 0.3],
                       "namespaces": [None] if clusterwide else list(nss)})
+        if rng.random() < 0.3:
+            # some running watchers exit on their own (HTTP 404 while the CRD is away, …) before the next pass
+            cur = sorted(expected_pairs(watched, [None] if clusterwide else nss), key=str)
+            dying = [list(k) for k in cur if rng.random() < 0.4]
+            if dying:
+                steps.append({"die": dying})
     return {"seed": seed, "peering": rng.choice(["standalone", "absent"]), "clusterwide": clusterwide, "steps": steps}
 
 
@@ -560,7 +567,13 @@ def expected_pairs(watched: list[dict], namespaces: list) -> set:
 def oracle_adjust(h: dict, r: dict) -> list[tuple[str, dict]]:
     fails: list[tuple[str, dict]] = []
     prev_expected: set = set()
-    for i, (st, row) in enumerate(zip(h["steps"], r["rows"])):
+    killed: set = set()
+    rows = iter(r["rows"])
+    for i, st in enumerate(h["steps"]):
+        if "die" in st:
+            killed |= {tuple(k) for k in st["die"]}
+            continue
+        row = next(rows)
         want = expected_pairs(st["watched"], st["namespaces"])
         got_list = [tuple(k) for k, _new in row["keys"]]
         got = set(got_list)
@@ -579,13 +592,17 @@ def oracle_adjust(h: dict, r: dict) -> list[tuple[str, dict]]:
             fails.append((f"step {i}: watcher tasks not running: {sorted(got - alive, key=str)}",
                           {"site": "orchestration.adjust_tasks", "shape": "watcher task in the ensemble is not running"}))
         for k, new in row["keys"]:
-            if tuple(k) in prev_expected and tuple(k) in want and new:
+            if tuple(k) in killed and tuple(k) in prev_expected and tuple(k) in want and not new:
+                fails.append((f"step {i}: the watcher of {k} had exited on its own but was not replaced",
+                              {"site": "orchestration.adjust_tasks", "shape": "dead watcher task kept"}))
+            if tuple(k) in prev_expected and tuple(k) in want and new and tuple(k) not in killed:
                 fails.append((f"step {i}: the watch of {k} stayed served but its task was replaced",
                               {"site": "orchestration.adjust_tasks", "shape": "continuing watch restarted"}))
         if row["stopped_prev_running"]:
             fails.append((f"step {i}: tasks dropped from the ensemble still run: {row['stopped_prev_running']}",
                           {"site": "orchestration.terminate_redundancies", "shape": "redundant watcher not stopped"}))
         prev_expected = want & got
+        killed = set()
     return fails
 
 
@@ -594,9 +611,11 @@ def eval_adjust(h: dict) -> dict:
     r = sim_c19.run_adjust(h)
     if "sim_error" in r:
         return {"h": h, "sim_error": r["sim_error"]}
-    req = [{"watched": st["watched"], "namespaces": st["namespaces"]} for st in h["steps"]]
-    removed = any(len(a["watched"]) > len(b["watched"]) or len(a["namespaces"]) > len(b["namespaces"])
-                  for a, b in zip(h["steps"], h["steps"][1:]))
+    req = [st if "die" in st else {"watched": st["watched"], "namespaces": st["namespaces"]} for st in h["steps"]]
+    passes = [st for st in h["steps"] if "die" not in st]
+    removed = any("die" in st for st in h["steps"]) or \
+        any(len(a["watched"]) > len(b["watched"]) or len(a["namespaces"]) > len(b["namespaces"])
+            for a, b in zip(passes, passes[1:]))
     return {"h": h, "req": req, "impl": [row["keys"] for row in r["rows"]], "fails": oracle_adjust(h, r),
             "nontrivial": removed, "other_tasks": sum(row["other_tasks"] for row in r["rows"])}
 
@@ -808,6 +827,7 @@ def absorb(ctx: Ctx, res: dict, source: str, pending: dict) -> None:
                  sample={"history": case, "keys": res["impl"]} if res["nontrivial"] else None)
         ctx.count("histories", "clusterwide" if case.get("clusterwide") else "namespaced")
         ctx.count("histories", "steps", len(case["steps"]))
+        ctx.count("histories", "die-steps", sum(1 for st in case["steps"] if "die" in st))
         pending["reqs"].append(["C19.adjust", res["req"]])
         pending["impl"].append({"rows": [sorted(([k, n] for k, n in row), key=lambda x: (x[0][0], str(x[0][1]))) for row in res["impl"]]})
         pending["where"].append({"kind": kind, "case": case})
@@ -892,7 +912,7 @@ def search(ctx: Ctx, broken: list) -> None:
         items.append(("stream", gen_script(rng, 7_000_000 + i)))
     for i in range(ctx.budget(2000, 20000)):
         items.append(("adjust", gen_history(rng, 7_000_000 + i)))
-    open_sigs = [F2_SIG, F3_SIG, F4_SIG]
+    open_sigs = [F2_SIG, F3_SIG]
     for res in _run_items(items, jobs):
         for what, sig in res.get("fails", []):
             if sig not in open_sigs:
